@@ -327,5 +327,15 @@ def r7_overrides_merge_per_parameter(chk: Check) -> None:
                           fn.loc(d))
 
 
+def r8_memo(chk: Check) -> None:
+    from . import shared
+
+    P = chk.project
+    mods = ('specs/openapi/examples.py', 'generation/hypothesis/builder.py', 'specs/openapi/_hypothesis.py', 'specs/openapi/parameters.py')
+    fns = [f for m in mods if m in P.by_relpath for f in P.module(m).functions.values() if not isinstance(f.node, ast.Lambda)]
+    shared.memo_key_rule(chk, "C17.R8", fns, {("_set_cache_entry", "data"): "a setter: the value to store is handed in by get(), which computed it for this key", ("_get_body_strategy", "operation"): "a parameter belongs to exactly one operation (stated next to the cache)"},
+                         "MEMO-KEY(anchor modules of this property): the examples of an operation depend on that operation's definition: a cache keyed by less replays another operation's examples", floor=0)
+
+
 def rules(tier: str) -> list:  # type: ignore[type-arg]
-    return [r1_marks, r2_invalid_headers, r3_sibling_sources, r4_explicit_containers, r5_round_robin, r6_presence_by_membership, r7_overrides_merge_per_parameter]
+    return [r1_marks, r2_invalid_headers, r3_sibling_sources, r4_explicit_containers, r5_round_robin, r6_presence_by_membership, r7_overrides_merge_per_parameter, r8_memo]
